@@ -11,4 +11,6 @@ const verifEnabled = false
 
 func verifPark(wg *uintptr) bool { return false }
 
+func verifReady(g uintptr) bool { return false }
+
 func verifPoint(id int, p unsafe.Pointer) {}
